@@ -437,8 +437,8 @@ func GenParams(t *rapid.T, p *Profile, kind string, nAcc int) *ParamsPatch {
 		pp.FeeRec = pick(t, []uint64{10, 1, 1000, 3, 20}, "feeRec")
 		pp.FeePur = pick(t, []uint64{5, 1, 1000, 2, 9}, "feePur")
 		pp.Denom = "nund"
-		if oneIn(t, 6, "regDenom") {
-			pp.Denom = pick(t, denomsValid, "regDenomV") // the fee denomination may be any well-formed denomination (an IBC voucher, another token)
+		if oneIn(t, 5, "regDenom") {
+			pp.Denom = pick(t, []string{denomsValid[len(denomsValid)-1], "atto", "stake", denomsValid[len(denomsValid)-1], "abc"}, "regDenomV") // the fee denomination may be any well-formed denomination (an IBC voucher, another token)
 		}
 		pp.DefLimit = uint64(uniRange(t, 1, 6, "def"))
 		pp.MaxLimit = pp.DefLimit + uint64(uniRange(t, 0, 8, "maxExtra"))
